@@ -763,6 +763,218 @@ def stereo_extra():
     return out
 
 
+# ------------------------------------------------------------------------------------------------
+# nested dependent stereo units (labels whose stereogenicity depends on other labels, to any depth), built through the API
+# ------------------------------------------------------------------------------------------------
+# level 0 = arms labelled in the skeleton text (independent centres / double bonds); a unit of level k >= 1 is a centre
+# CH(X)(X') or a double bond C(C)=C(X)(X') whose two substituents are the same constitution and differ only in labels of
+# level k-1, so the unit is stereogenic only once those labels are stored (pseudo-asymmetric to depth k).  The top unit
+# F-CH(X)(X') has level `depth`.  All labels above level 0 are set with add_atom_stereo / add_cis_trans_stereo (which flush
+# the stereo caches after every label): the SMILES reader is not its own oracle here, it only reads the level-0 skeleton.
+
+NEST_ARM = {'T': ('[C@H](F)Cl', '[C@@H](F)Cl'), 'D': ('/C=C/C', '/C=C\\C')}
+
+
+def nest_build(level, kinds):
+    """-> (skeleton text attached through its first atom, atom count, unit tree or None): positions are offsets from the first atom"""
+    if level == 0:
+        return NEST_ARM[kinds[0]], 3, None
+    sub, n, tree = nest_build(level - 1, kinds)
+    a, b = sub if level == 1 else (sub, sub)
+    if kinds[level] == 'T':
+        text, first = 'C(' + a + ')' + b, 1
+    else:
+        text, first = 'C(C)=C(' + a + ')' + b, 3
+
+    def shift(t, d):
+        return None if t is None else {'level': t['level'], 'kind': t['kind'], 'pos': t['pos'] + d, 'kids': [shift(k, d) for k in t['kids']]}
+
+    node = {'level': level, 'kind': kinds[level], 'pos': 0, 'kids': [shift(tree, first), shift(tree, first + n)]}
+    return text, first + 2 * n, node
+
+
+def nest_chiral(mol, node):
+    if node['kind'] == 'T':
+        return node['pos'] in mol.chiral_tetrahedrons
+    return any(set(k) == {node['pos'], node['pos'] + 2} for k in mol.chiral_cis_trans)
+
+
+def nest_label(mol, node, sign):
+    n = node['pos']
+    if node['kind'] == 'T':
+        mol.add_atom_stereo(n, mol.stereogenic_tetrahedrons[n], sign)
+    else:
+        key = next(k for k in mol.stereogenic_cis_trans if set(k) == {n, n + 2})
+        env = mol.stereogenic_cis_trans[key]
+        mol.add_cis_trans_stereo(key[0], key[1], env[0], env[1], sign)
+
+
+def nest_fill(rng, mol, node, parent, plan, mirror):
+    """label the subtree of `node` bottom-up; `plan`: signs to reuse (mirror image of the sibling) or None; if `parent` is
+    given the top label is chosen so that the parent becomes stereogenic. Returns (molecule, signs used) or None"""
+    used = []
+    for i, kid in enumerate(node['kids']):
+        if kid is None:
+            continue
+        sub_plan = None
+        if i == 1 and mirror and used:
+            sub_plan = used[0]
+        elif plan is not None:
+            sub_plan = plan[1][i] if i < len(plan[1]) else None
+        r = nest_fill(rng, mol, kid, node if i == 1 else None, sub_plan, mirror)
+        if r is None:
+            return None
+        mol, u = r
+        used.append(u)
+    first = plan[0] if plan is not None else rng.random() < 0.5
+    for sign in (first, not first):
+        c = mol.copy()
+        try:
+            nest_label(c, node, sign)
+        except Exception:  # noqa  NotChiral: the two substituents are (still) equal
+            return None
+        if parent is None or nest_chiral(c, parent):
+            return c, (sign, used)
+    return None
+
+
+def nested_stereo(rng, quick):
+    """[(name, molecule, epimer of the top centre)]"""
+    from chython import smiles
+    out = []
+    plans = [(2, 'TTT'), (2, 'DDT'), (2, 'TDT'), (3, rng.choice(['TTTT', 'DTDT', 'TDTT']))] if quick else \
+        [(2, 'TTT'), (2, 'DDT'), (2, 'TDT'), (2, 'DTT'), (3, 'TTTT'), (3, 'DTDT'), (3, 'TDTT'), (3, 'DDTT'), (4, 'TTTTT'), (4, 'DTDTT'), (5, 'TTDTTT')]
+    if quick and rng.random() < 0.5:
+        plans.append((4, rng.choice(['TTTTT', 'DTTDT', 'TDTTT'])))
+    for depth, kinds in plans:
+        text, n, t0 = nest_build(depth, kinds)
+
+        def shift(t, d):
+            return None if t is None else {'level': t['level'], 'kind': t['kind'], 'pos': t['pos'] + d, 'kids': [shift(k, d) for k in t['kids']]}
+        tree = shift(t0, 2)   # atom 1 is F, the top centre is atom 2
+        for mirror in ((True, False) if (not quick or kinds == 'TTT') else (True,)):
+            try:
+                m = smiles('F' + text)
+            except Exception:  # noqa
+                continue
+            if m is None or len(m) != n + 1:
+                continue
+            # everything below the top, then both labels of the top centre
+            used = []
+            ok = True
+            for i, kid in enumerate(tree['kids']):
+                r = nest_fill(rng, m, kid, tree if i == 1 else None, used[0] if (i == 1 and mirror and used) else None, mirror)
+                if r is None:
+                    ok = False
+                    break
+                m, u = r
+                used.append(u)
+            if not ok:
+                continue
+            pair = []
+            for sign in (True, False):
+                c = m.copy()
+                try:
+                    nest_label(c, tree, sign)
+                except Exception:  # noqa
+                    break
+                pair.append(c)
+            if len(pair) == 2:
+                tag = f'nested:d{depth}:{kinds}:{"mirror" if mirror else "mixed"}'
+                out.append((tag + '+', pair[0], pair[1]))
+                out.append((tag + '-', pair[1], pair[0]))
+    return out
+
+
+def perm_parity(a, b):
+    """True if b is an odd permutation of a"""
+    p = [a.index(x) for x in b]
+    return sum(p[i] > p[j] for i in range(len(p)) for j in range(i + 1, len(p))) % 2 == 1
+
+
+def own_stereo_diffs(mol, text, order):
+    """configuration after re-reading, compared WITHOUT the library's translators: the stored sign of a centre refers to its
+    `stereogenic_tetrahedrons` neighbour tuple, so original and re-read agree iff (signs differ) == (the re-read tuple is an
+    odd permutation of the mapped original tuple); a double-bond label refers to the first substituents of its environment:
+    it flips once for every end whose reference substituent changed."""
+    from chython import smiles
+    try:
+        r = smiles(text)
+    except Exception as e:  # noqa
+        return [f'reader-raises:{type(e).__name__}']
+    got = list(r._atoms)
+    if len(got) != len(order):
+        return ['atom-count']
+    fw = dict(zip(order, got))
+    diffs = []
+    for n, a in mol._atoms.items():
+        b = r._atoms[fw[n]]
+        if (a.stereo is None) != (b.stereo is None):
+            diffs.append(f'stereo-presence@{n}:{a.stereo}->{b.stereo}')
+        elif a.stereo is not None and n in mol.stereogenic_tetrahedrons and fw[n] in r.stereogenic_tetrahedrons:
+            own = [fw[x] for x in mol.stereogenic_tetrahedrons[n]]
+            new = list(r.stereogenic_tetrahedrons[fw[n]])
+            if sorted(own) != sorted(new):
+                diffs.append(f'environment@{n}')
+            elif (a.stereo != b.stereo) != perm_parity(own, new):
+                diffs.append(f'tetrahedron@{n}')
+    for x, y, bd in mol.bonds():
+        if not r.has_bond(fw[x], fw[y]):
+            diffs.append('connectivity')
+            continue
+        rbd = r._bonds[fw[x]][fw[y]]
+        if (bd.stereo is None) != (rbd.stereo is None):
+            diffs.append(f'ct-presence@{x}-{y}:{bd.stereo}->{rbd.stereo}')
+        elif bd.stereo is not None:
+            k1 = next((k for k in mol.stereogenic_cis_trans if set(k) == {x, y}), None)
+            k2 = next((k for k in r.stereogenic_cis_trans if set(k) == {fw[x], fw[y]}), None)
+            if k1 is None or k2 is None:
+                continue  # label inside a longer cumulene chain: left to the translator-based judge
+            e1, e2 = mol.stereogenic_cis_trans[k1], r.stereogenic_cis_trans[k2]
+            ref = {fw[k1[0]]: fw[e1[0]], fw[k1[1]]: fw[e1[1]]}   # end -> reference substituent, mapped
+            flips = sum(ref[end] != sub for end, sub in ((k2[0], e2[0]), (k2[1], e2[1])))
+            if (bd.stereo != rbd.stereo) != (flips % 2 == 1):
+                diffs.append(f'cis-trans@{x}-{y}')
+    return diffs
+
+
+def nested_stream(ctx, fam):
+    """write -> read of molecules with nested dependent stereo units in several styles and orders, judged by the own
+    permutation-parity comparison AND the translator-based judge; the two epimers at the top centre never share a
+    canonical string and never re-read as the same molecule"""
+    for name, m, twin in fam:
+        depth = name.split(':')[1]
+        ctx.dist('nested-dependent-stereo:depth=' + depth[1:])
+        specs = [('', 0), ('h', 0), ('a', 0), ('A', 0)] + [('r', ctx.rng.getrandbits(30)) for _ in range(3 if ctx.quick else 10)]
+        for spec, seed in specs:
+            line, text, order, _ = real_write(m, spec, seed)
+            ctx.count(('N', spec, tuple(wire.mol_to_ints(m)), seed), True)
+            if text is None:
+                ctx.broke('relational', 'writer-raises', f'{name} [{spec!r}] {line}')
+                continue
+            d = own_stereo_diffs(m, text, order) or judge(m, text, order, spec)
+            if d:
+                ctx.cov['disagreements_checked'] += 1
+                inp = {'kind': 'roundtrip', 'mol': wire.mol_to_ints(m), 'spec': spec, 'draw_seed': seed, 'first': None, 'name': name}
+                ctx.fail(signature_of(d, m, spec), f'{name} [{spec!r}] written {text!r} re-reads with differences {d[:5]} (own parity judge)', inp)
+        if name.endswith('+'):
+            s1, s2 = str(m), str(twin)
+            ctx.count(('NE', tuple(wire.mol_to_ints(m))), True)
+            same_text = s1 == s2
+            same_back = False
+            if not same_text:
+                try:
+                    from chython import smiles
+                    same_back = str(smiles(s1)) == str(smiles(s2))
+                except Exception:  # noqa
+                    same_back = False
+            if same_text or same_back:
+                ctx.cov['disagreements_checked'] += 1
+                inp = {'kind': 'epimers', 'mol': wire.mol_to_ints(m), 'mol2': wire.mol_to_ints(twin), 'name': name}
+                ctx.fail('C02/collision/epimers', f'{name}: epimers at the top centre: canonical {s1!r} vs {s2!r}; same text: {same_text}; '
+                         f're-read as the same molecule: {same_back}', inp)
+
+
 def molecules(ctx):
     rng = ctx.rng
     q = ctx.quick
@@ -815,6 +1027,23 @@ def molecules(ctx):
         except Exception:  # noqa
             continue
     out += extra
+    # nested dependent stereo units: after the generic renumbering (molgen.renumber re-inserts the neighbour dicts in random order
+    # and carries the stored signs over unchanged, i.e. it produces ANOTHER stereoisomer: harmless for independent centres,
+    # but here it would create labels on units that are not stereogenic, objects the labelling API refuses to build).
+    # Their numbering variants are made with remap(), which keeps the neighbour order and therefore the configuration.
+    _state['nested'] = nested_stereo(rng, q)
+    for nm, m, _ in _state['nested']:
+        if nm.endswith('-') and (q and ':d2:' not in nm):
+            continue   # the other epimer is still written, re-read and compared in nested_stream
+        out.append((nm, m))
+        if nm.endswith('+') and (not q or ':d2:' in nm):
+            try:
+                c = m.copy()
+                nums = list(c._atoms)
+                c.remap(dict(zip(nums, rng.sample(range(1, 4 * len(nums)), len(nums)))))
+                out.append((nm + '/remap', c))
+            except Exception:  # noqa
+                pass
     for k in (5, 12, 30) if q else (5, 12, 30, 60, 98):
         out.append((f'hub{k}', build_from_ints(hub_graph(k))))
     return out
@@ -911,6 +1140,8 @@ def correspond(ctx):
                 except Exception:  # noqa
                     pass
             labelled = [(x, y) for x, y, b in mol.bonds() if b.stereo is not None]
+            if name.startswith('nested:'):
+                labelled = []   # removing a label there leaves dependent labels on units that are no longer stereogenic
             if len(labelled) >= 2:  # partially labelled polyenes: marks exist around a double bond without a label
                 for x, y in (labelled[0], labelled[-1]):
                     c = mol.copy()
@@ -1056,6 +1287,7 @@ def correspond(ctx):
     others = [(nm, m) for nm, m in mols if not any(a.is_radical for a in m._atoms.values())]
     history_stream(ctx, rad + ctx.rng.sample(others, min(len(others), 60 if ctx.quick else 600)))
     injectivity(ctx)
+    nested_stream(ctx, _state.get('nested', []))
 
 
 _state = {}
@@ -1424,6 +1656,14 @@ def probe(inp):
         same_graph = sorted((x, y, int(bd)) for x, y, bd in a.bonds()) == sorted((x, y, int(bd)) for x, y, bd in b.bonds())
         fails = same_graph and la != lb and str(a) == str(b)
         return fails, f'{inp["smiles1"]} -> {str(a)!r}; {inp["smiles2"]} -> {str(b)!r}; labels {la} vs {lb}; a == b: {a == b}'
+    if kind == 'epimers':
+        from chython import smiles
+        m1, _ = wire.ints_to_mol(inp['mol'], calc=True)
+        m2, _ = wire.ints_to_mol(inp['mol2'], calc=True)
+        s1, s2 = str(m1), str(m2)
+        differ = inp['mol'] != inp['mol2']
+        back = str(smiles(s1)) == str(smiles(s2))
+        return differ and (s1 == s2 or back), f'{s1!r} vs {s2!r}; labels differ: {differ}; re-read as the same molecule: {back}'
     if kind == 'collision':
         m1, _ = wire.ints_to_mol(inp['mol'], calc=True)
         m2, _ = wire.ints_to_mol(inp['mol2'], calc=True)
